@@ -67,7 +67,7 @@ func RunConcurrent(sc *Scenario) *RunResult {
 	for _, s := range sc.Handlers {
 		na += len(s)
 	}
-	s := &Sched{schedule: sc.Schedule, MaxSteps: total*(600+16*nh+4*na) + 400}
+	s := newSched(sc, total*(600+16*nh+4*na)+400)
 	faults := sc.CacheFaults
 	var prevKeys []string
 	s.Between = func(step int) {
@@ -82,7 +82,7 @@ func RunConcurrent(sc *Scenario) *RunResult {
 		}
 		res.States = append(res.States, abstractState(w, s))
 		reachProbes(w, s, &prevKeys)
-		if cr := w.R.VerifCache(); cr != nil && sc.Options.Caching {
+		if cr := w.R.VerifCache(); cr != nil && sc.Options.Caching && (!sc.Pre || cr.VerifLockFree()) { // (with statement-level preemption a task may be parked inside the critical section)
 			keys, idx := cr.VerifKeys()
 			if len(keys) > sc.Options.Capacity && !(sc.Options.Capacity == 0 && len(keys) == 0) {
 				res.Between = append(res.Between, fmt.Sprintf("cache holds %d entries, capacity %d (step %d)", len(keys), sc.Options.Capacity, step))
